@@ -1,7 +1,10 @@
-"""stubtest: aliases of `type[int]` / of a call-syntax TypedDict are 'not a recognised type alias'.
+"""stubtest: aliases of `type[int]` / of a TypedDict class are 'not a recognised type alias'.
 
 Exit status 1 = defect present, 0 = absent, 2 = inconclusive (preconditions of the input failed).
-Mechanism keys: stubtest:semantic:type-alias:is not a recognised type alias, stubtest:semantic:class-alias:is not a recognised type alias"""
+Mechanism keys:
+  stubtest:semantic:type-alias:is not a recognised type alias
+  stubtest:semantic:class-alias:is not a recognised type alias
+"""
 import os
 import sys
 
@@ -11,7 +14,10 @@ from _c19repro import run
 FILES = '''from typing import Type, TypedDict
 
 Alias = Type[int]
-Movie = TypedDict('Movie', {'class': int, 'in-valid': str})
+
+class Movie(TypedDict):
+    title: str
+
 MovieAlias = Movie
 '''
 EXPECT = ['stubtest:semantic:type-alias:is not a recognised type alias',
